@@ -67,6 +67,9 @@ def run(ctx, rep):
     protocol(ctx, rep, "C08")
     from rules import C07
     C07.bytes_to_le_rules(ctx.facts(), rep, "C08")
+    from rules import cachelib, C07 as _C07
+    cachelib.cache_rules(ctx, rep, "C08")
+    compose(ctx, rep, "C07", "C08.conv", r"^C07\.endian$")
 
 
 def protocol(ctx, rep, P):
